@@ -1,2 +1,195 @@
-//! Gadget extraction: run real composer components (concretely) and dump the
-//! emitted gates.
+//! Gadget extraction: run real composer components on concrete witnesses
+//! (seed-derived or supplied through VERIF_ENV) and dump the emitted gates.
+
+use dusk_plonk::prelude::*;
+use serde_json::{json, Value};
+
+use crate::{hex, BlsScalar, Ctx};
+
+pub fn snapshot_json(c: &Composer) -> Value {
+    let (gates, wit, pis) = c.verif_snapshot();
+    let g: Vec<Value> = gates
+        .iter()
+        .map(|(s, w)| json!([s.iter().map(hex).collect::<Vec<_>>(), w.to_vec()]))
+        .collect();
+    json!({
+        "gates": g,
+        "witnesses": wit.iter().map(hex).collect::<Vec<_>>(),
+        "pis": pis.iter().map(|(r, v)| json!([r, hex(v)])).collect::<Vec<_>>(),
+    })
+}
+
+macro_rules! with_width {
+    ($w:expr, 127, |$N:ident| $body:expr) => {
+        crate::dispatch_const_127!($w, |$N| $body)
+    };
+    ($w:expr, 254, |$N:ident| $body:expr) => {
+        crate::dispatch_const_254!($w, |$N| $body)
+    };
+    ($w:expr, 256, |$N:ident| $body:expr) => {
+        crate::dispatch_const_256!($w, |$N| $body)
+    };
+}
+
+pub type Named = serde_json::Map<String, Value>;
+
+/// Build one gadget on `c`.  `val(name)` supplies the input witness values.
+pub fn build_gadget(
+    c: &mut Composer,
+    args: &[String],
+    val: &mut dyn FnMut(&str) -> BlsScalar,
+) -> (Named, Named) {
+    let g = args[0].as_str();
+    let p = |i: usize| -> usize { args[i].parse().expect("numeric parameter") };
+    let mut inputs = serde_json::Map::new();
+    let mut returned = serde_json::Map::new();
+    let mut inp = |c: &mut Composer, name: &str| -> Witness {
+        let v = val(name);
+        let w = c.append_witness(v);
+        inputs.insert(name.to_string(), json!(w.index()));
+        w
+    };
+    match g {
+        "range_bits" => {
+            let w = p(1);
+            let x = inp(c, "x");
+            with_width!(w, 256, |N| c.component_range_bits::<N>(x));
+        }
+        "range_pairs" => {
+            let w = p(1);
+            let x = inp(c, "x");
+            #[allow(deprecated)]
+            {
+                with_width!(w, 256, |N| c.component_range::<N>(x));
+            }
+        }
+        "logic" => {
+            let xor = args[1] == "xor";
+            let w = p(2);
+            let a = inp(c, "a");
+            let b = inp(c, "b");
+            let r = if xor {
+                with_width!(w, 127, |N| c.append_logic_xor::<N>(a, b))
+            } else {
+                with_width!(w, 127, |N| c.append_logic_and::<N>(a, b))
+            };
+            returned.insert("out".into(), json!(r.index()));
+        }
+        "truncate" => {
+            let w = p(1);
+            let x = inp(c, "x");
+            let r = with_width!(w, 254, |N| c.component_truncate::<N>(x));
+            returned.insert("out".into(), json!(r.index()));
+        }
+        "decomposition" => {
+            let w = p(1);
+            let x = inp(c, "x");
+            let r: Vec<usize> = with_width!(w, 256, |N| {
+                if N == 0 {
+                    panic!("N must be > 0")
+                } else {
+                    c.component_decomposition::<N>(x).iter().map(|w| w.index()).collect()
+                }
+            });
+            returned.insert("bits".into(), json!(r));
+        }
+        _ => panic!("unknown gadget {g}"),
+    }
+    (inputs, returned)
+}
+
+/// `extract <gadget> <params..>`
+pub fn run(ctx: &mut Ctx, args: &[String]) {
+    let mut c = Composer::initialized();
+    let init_rows = c.constraints();
+    let init_wit = c.verif_snapshot().1.len();
+    let (inputs, returned) = build_gadget(&mut c, args, &mut |n| ctx.var(n));
+    let mut s = snapshot_json(&c);
+    let o = s.as_object_mut().unwrap();
+    o.insert("inputs".into(), Value::Object(inputs));
+    o.insert("returned".into(), Value::Object(returned));
+    o.insert("init_rows".into(), json!(init_rows));
+    o.insert("init_witnesses".into(), json!(init_wit));
+    ctx.out_json("layout", s);
+}
+
+/// Deterministic RNG for replays (not cryptographic; replay only).
+pub struct ReplayRng(pub u64);
+impl rand_core::RngCore for ReplayRng {
+    fn next_u32(&mut self) -> u32 {
+        self.next_u64() as u32
+    }
+    fn next_u64(&mut self) -> u64 {
+        self.0 = crate::splitmix(self.0);
+        self.0
+    }
+    fn fill_bytes(&mut self, dest: &mut [u8]) {
+        for ch in dest.chunks_mut(8) {
+            let v = self.next_u64().to_le_bytes();
+            ch.copy_from_slice(&v[..ch.len()]);
+        }
+    }
+    fn try_fill_bytes(&mut self, dest: &mut [u8]) -> Result<(), rand_core::Error> {
+        self.fill_bytes(dest);
+        Ok(())
+    }
+}
+impl rand_core::CryptoRng for ReplayRng {}
+
+/// A circuit that builds one gadget and then overrides witnesses.
+#[derive(Default, Clone)]
+pub struct GadgetCircuit {
+    pub args: Vec<String>,
+    pub inputs: Vec<(String, BlsScalar)>,
+    pub overrides: Vec<(usize, BlsScalar)>,
+}
+
+impl Circuit for GadgetCircuit {
+    fn circuit(&self, c: &mut Composer) -> Result<(), Error> {
+        let inputs = self.inputs.clone();
+        build_gadget(c, &self.args, &mut |n| {
+            inputs.iter().find(|(k, _)| k == n).map(|(_, v)| *v).unwrap_or(BlsScalar::zero())
+        });
+        for (i, v) in &self.overrides {
+            c.verif_set_witness(Composer::verif_witness(*i), *v);
+        }
+        Ok(())
+    }
+}
+
+/// `prove_gadget <gadget> <params..>`: replay of a gadget-soundness model.
+/// Variables `w<i>` of the environment override witness i; the real
+/// compiler, prover and verifier are run end to end.
+pub fn prove(ctx: &mut Ctx, args: &[String]) {
+    let honest = GadgetCircuit { args: args.to_vec(), inputs: vec![], overrides: vec![] };
+    let mut forged = honest.clone();
+    if let Some(env) = ctx.env_override.clone() {
+        for (k, v) in env.iter() {
+            if let (Some(idx), Value::String(h)) = (k.strip_prefix('w'), v) {
+                if let Ok(i) = idx.parse::<usize>() {
+                    forged.overrides.push((i, crate::from_hex(h)));
+                }
+            }
+        }
+    }
+    let mut probe = Composer::initialized();
+    honest.circuit(&mut probe).unwrap();
+    let n = probe.constraints();
+    let mut rng = ReplayRng(ctx.seed ^ 0x5eed);
+    let pp = PublicParameters::setup((n + 8).next_power_of_two() + 8, &mut rng).expect("setup");
+    let (prover, verifier) =
+        Compiler::compile_with_circuit(&pp, b"verif-replay", &honest).expect("compile");
+    match prover.prove(&mut rng, &forged) {
+        Ok((proof, pis)) => {
+            ctx.out_json("proved", json!(true));
+            let v = verifier.verify(&proof, &pis);
+            ctx.out_json("verified", json!(v.is_ok()));
+            ctx.out_json("error", json!(format!("{:?}", v.err())));
+        }
+        Err(e) => {
+            ctx.out_json("proved", json!(false));
+            ctx.out_json("verified", json!(false));
+            ctx.out_json("error", json!(format!("{:?}", e)));
+        }
+    }
+}
